@@ -240,6 +240,19 @@ def eval_case(kind, data):
             viol(res, f"C18|not-sanitisable|{name}", f"{text}: to_mol raises {type(e).__name__}: {str(e)[:80]}", {"text": text, "script": script})
             continue
         outcomes.add(smi)
+        # an observer: drawing the generated molecule must not change it
+        try:
+            from gbigsmiles.core import molecule_atom_graph_to_dot_string
+
+            molecule_atom_graph_to_dot_string(ag)
+            smi_after = Chem.MolToSmiles(ag.to_mol())
+            if smi_after != smi or graph_smiles(ag.graph) != smi:
+                viol(res, f"C18|drawing-changes-the-generated-molecule|{name}", f"{text}: after molecule_atom_graph_to_dot_string() the generated molecule {smi} reads {smi_after} / its graph denotes {graph_smiles(ag.graph)}", {"text": text, "script": script})
+        except ImportError:
+            pass
+        except Exception as e:  # noqa
+            viol(res, f"C18|drawing-changes-the-generated-molecule|{name}", f"{text}: after molecule_atom_graph_to_dot_string() the generated molecule {smi} can no longer be read: {type(e).__name__}: {str(e)[:60]}", {"text": text, "script": script})
+        g = ag.graph
         if len(done) < 250:
             done.append((list(script), smi))
         try:
